@@ -127,3 +127,13 @@ Example C15_pacing_configured_example :
   = [(Wake, [CallLock]); (LockOk, []); (Tick 31000000000, [Eval 1 31000000000]); (Tick 36000000000, []);
      (Tick 61000000000, []); (Tick 61000000001, [Eval 1 61000000001])].
 Proof. exact pacing_configured_example. Qed.
+
+(* the session publisher (zookeeper coordinator): a StateExpired event closes the gate of an evaluating loop, which
+   then waits for the reconnect without touching the lock *)
+Theorem C15_zk_expiry_stops_evaluation : forall mi s c,
+  ph s = Evaluating ->
+  let r := feed (step_s mi) s (zk_session true ZkExpired c) in
+  ph (fst r) = WaitReconnect /\ doEval (fst r) = false /\ conn (fst r) = false /\ snd r = []
+  /\ snd (step_s mi (fst r) Wake) = [].
+Proof. exact zk_expiry_stops_evaluation. Qed.
+Print Assumptions C15_zk_expiry_stops_evaluation.
